@@ -314,6 +314,30 @@ def _worker(part, tier, is_canary):
                 chk(f"net.loc({at})", net.loc(at), want)
                 w0 = [g for g in want if U[g].cell == 0 and U[g].branch == 2]
                 chk(f"net.cell(0).branch(2).loc({at})", net.cell(0).branch(2).loc(at), w0)
+            # loc is not a scope switch: a chain continued after loc() keeps the scope it had (seeded change C11_d)
+            def loc_den(view_o, at):
+                keep = []
+                for gb in sorted({c.gbranch for c in view_o}):
+                    comps = [c for c in U if c.gbranch == gb]        # loc digitises over the whole branch ...
+                    tgt = comps[min(int(at * len(comps)), len(comps) - 1)].g
+                    keep += [c for c in view_o if c.g == tgt]        # ... and keeps it if it is in view
+                return keep
+            def chk_lazy(label, mk, want_g):
+                try:
+                    v = mk()
+                except Exception as e:
+                    bad.append(f"{label}: raised {type(e).__name__}: {str(e)[:80]} although the chain denotes {sorted(want_g)}")
+                    return
+                chk(label, v, want_g)
+            for at, l, i in ((0.0, "branch", 1), (1.0, "branch", 0), (0.0, "cell", [0, 2]), (1.0, "comp", 0), (0.51, "branch", [0, 1])):
+                vo = denote(loc_den(list(U), at), l, i, "local")
+                chk_lazy(f"net.loc({at}).{l}({i})", lambda at=at, l=l, i=i: getattr(net.loc(at), l)(i), [c.g for c in vo])
+            vo = denote(loc_den([c for c in U if c.cell == 1], 1.0), "branch", 0, "local")
+            chk_lazy("net.cell(1).loc(1.0).branch(0)", lambda: net.cell(1).loc(1.0).branch(0), [c.g for c in vo])
+            vo = denote(loc_den([c for c in U if c.cell == 0], 0.0), "branch", 2, "local")
+            chk_lazy("net.cell(0).loc(0.0).branch(2)", lambda: net.cell(0).loc(0.0).branch(2), [c.g for c in vo])
+            vo = denote(loc_den(list(U), 0.0), "branch", 4, "global")
+            chk_lazy("net.scope('global').loc(0.0).branch(4)", lambda: net.scope("global").loc(0.0).branch(4), [c.g for c in vo])
             # lazy indexing == method form
             for ix in ((0,), (1, 1), (0, 2, 1), (slice(None), 0), ([0, 2], 0, 0), (2, 0, slice(None))):
                 a = net[ix if len(ix) > 1 else ix[0]]
